@@ -46,8 +46,6 @@ fn init_logging(opts: &Opts) -> Result<()> {
 }
 
 // Expand a list of file-paths or glob-patterns into a list of concrete paths.
-// FIXME: This currently eats non-existent files that are not
-// globs. Should we convert empty glob results into errors?
 fn expand_globs(patterns: &[String]) -> Result<Vec<PathBuf>> {
     let paths = patterns.iter()
         .map(|s| glob(s.as_str()))
@@ -56,7 +54,11 @@ fn expand_globs(patterns: &[String]) -> Result<Vec<PathBuf>> {
         // Force resolve each glob Paths iterator into a vector of the results...
         .map::<result::Result<Vec<PathBuf>, _>, _>(Iterator::collect)
         // And lift all the results up to the top.
-        .collect::<result::Result<Vec<Vec<PathBuf>>, _>>()?
+        .collect::<result::Result<Vec<Vec<PathBuf>>, _>>()?;
+    if paths.iter().any(Vec::is_empty) {
+        return Err(XcpError::InvalidSource("No source files found.").into());
+    }
+    let paths = paths
         .iter()
         .flat_map(ToOwned::to_owned)
         .collect::<Vec<PathBuf>>();
